@@ -104,6 +104,15 @@ def _apply_ufunc(ufunc, method, inputs, kwargs):
             nextinputs.append(
                 ak.highlevel.Array(x.layout.project(), behavior=ak._util.behaviorof(x))
             )
+        elif isinstance(x, ak.highlevel.Array) and isinstance(
+            x.layout, ak._util.indexedoptiontypes
+        ):
+            nextinputs.append(
+                ak.highlevel.Array(
+                    type(x.layout)(x.layout.index, x.layout.content),
+                    behavior=ak._util.behaviorof(x),
+                )
+            )
         else:
             nextinputs.append(x)
 
